@@ -247,6 +247,10 @@ def run_concrete(db, target: str, inputs: dict, fe=None):
             result = fn(**args) if "self" not in args else fn(**args)
     except Exception as e:  # noqa
         exc = e
+        tb = traceback.extract_tb(e.__traceback__)
+        if isinstance(e, (AttributeError, TypeError)) and ("Mock" in str(e) or "object has no attribute" in str(e)):
+            # the pre-state rebuilt from the model is incomplete (fields the contract does not mention): a harness artefact
+            return {"verdict": "not-evaluable", "reason": f"incomplete rebuilt pre-state: {type(e).__name__}: {e}"}
     observed = f"{type(exc).__name__}: {exc}" if exc is not None else f"returned {result!r}"[:200]
     post_args = dict(args)
     if local_ns is not None:
